@@ -363,6 +363,26 @@ func (m *vMonC06) AfterTx(h *vHist, o *vTxObs) {
 	diff := vRawDiff(pre, post)
 	for _, ch := range diff {
 		id, err := vDecodeKey(ch.Store, ch.Key)
+		if ch.Store == ctypes.StoreKey {
+			// whose certificate a record is, is said by the certificate itself
+			// (common name and serial number); the layout of the key is the
+			// keeper's business
+			val := ch.New
+			if val == nil {
+				val = ch.Old
+			}
+			var c ctypes.Certificate
+			if uerr := h.c.app.appCodec.UnmarshalBinaryBare(val, &c); uerr != nil {
+				h.Violation("written-key-decodes", kind, fmt.Sprintf("cert record under key %x does not decode: %v", ch.Key, uerr))
+				continue
+			}
+			serial, cn, ok := vCertSerialOfPEM(c.Cert)
+			if !ok {
+				h.Violation("written-key-decodes", kind, fmt.Sprintf("cert record under key %x holds an unparsable certificate", ch.Key))
+				continue
+			}
+			id, err = vKeyID{Kind: "cert", Addr: cn, Serial: serial}, nil
+		}
 		if err != nil {
 			h.Violation("written-key-decodes", kind, err.Error())
 			continue
